@@ -10,10 +10,13 @@ import (
 	"encoding/json"
 	"fmt"
 	"math/big"
+	"sort"
 
 	sdkmath "cosmossdk.io/math"
 	sdk "github.com/cosmos/cosmos-sdk/types"
 	authtypes "github.com/cosmos/cosmos-sdk/x/auth/types"
+	banktypes "github.com/cosmos/cosmos-sdk/x/bank/types"
+	distrtypes "github.com/cosmos/cosmos-sdk/x/distribution/types"
 
 	ftypes "mods.irisnet.org/modules/farm/types"
 	"mods.irisnet.org/simapp"
@@ -32,6 +35,9 @@ var (
 	farmAddr = engine.ModAddr(ftypes.ModuleName)
 	collAddr = engine.ModAddr(ftypes.RewardCollector)
 	feeAddr  = engine.ModAddr(authtypes.FeeCollectorName)
+	// distrAddr: the distribution module account, which holds the community pool; it is the
+	// creator of a pool created through governance
+	distrAddr = engine.ModAddr(distrtypes.ModuleName)
 )
 
 // Config is the per-run swarm configuration.
@@ -55,6 +61,27 @@ type Config struct {
 	HarvestBias []int    `json:"harvest_bias"` // per farmer: 0 = never harvests … 6 = harvest-happy
 	WAdjust     int      `json:"w_adjust"`
 	WDestroy    int      `json:"w_destroy"`
+	// ManyPools > 0: ten or more pools are created early in the run (cheap ones), so that pool
+	// ids that are string prefixes of each other exist (farm-1 / farm-10..), and the first
+	// pool keeps being operated on
+	ManyPools int `json:"many_pools"`
+	// PExact: share of created pools whose budget is an exact multiple of the rate for every
+	// denom, that start in the future, get their first stake exactly at the start height, are
+	// never empty and expire untouched (nothing is left to refund)
+	PExact float64 `json:"p_exact_budget"`
+	// PCluster: chance per generator call of planning two or three operations on one pool in
+	// one block (the later ones harvests/unstakes), followed by operations in later blocks
+	PCluster float64 `json:"p_cluster"`
+	// Gov: a pool as the governance route creates it (creator = the distribution module
+	// account, i.e. the community pool; not editable), present in the chain's genesis
+	Gov *govPool `json:"gov_pool,omitempty"`
+}
+
+// govPool describes the governance-created pool of a run (genesis state, see Genesis).
+type govPool struct {
+	Lpt     string       `json:"lpt"`
+	Start   int64        `json:"start"`
+	Rewards []rewardSpec `json:"rewards"`
 }
 
 type params struct {
@@ -78,7 +105,9 @@ type Module struct {
 	endSheet *engine.Sheet
 	phase    string // run phase of the block being executed (main | quiesce | epilogue)
 	// generation-only memory
-	nextCreate int64
+	nextCreate    int64
+	createsIssued int
+	queue         []*engine.TxPlan // planned operations with their heights (At)
 }
 
 func New() *Module {
@@ -156,6 +185,29 @@ func (m *Module) Configure(w *engine.World, r *engine.Rand) any {
 	}
 	c.WAdjust = r.Intn(4)
 	c.WDestroy = r.Intn(3)
+	if r.Bool(0.2) {
+		c.ManyPools = 10 + r.Intn(5)
+	}
+	c.PExact = []float64{0, 0.15, 0.3, 0.5}[r.Intn(4)]
+	c.PCluster = 0.02 + 0.1*r.Float()
+	if r.Bool(0.3) {
+		g := &govPool{Lpt: "lpt-1", Start: 2 + int64(r.Intn(8))}
+		life := int64(6 + r.Intn(40))
+		for i, d := range []string{"rwg", "rwh"}[:1+r.Intn(2)] {
+			var rate *big.Int
+			if r.Bool(c.SmallMag) {
+				rate = big.NewInt(smalls[r.Intn(len(smalls))])
+			} else {
+				rate = r.BigLogUniform(96)
+			}
+			total := new(big.Int).Mul(rate, big.NewInt(life+int64(i*r.Intn(5))))
+			if r.Bool(0.6) {
+				total.Add(total, r.BigBelow(rate))
+			}
+			g.Rewards = append(g.Rewards, rewardSpec{Denom: d, Total: total.String(), Rate: rate.String()})
+		}
+		c.Gov = g
+	}
 	return c
 }
 
@@ -198,7 +250,73 @@ func (m *Module) Genesis(w *engine.World, n *engine.Node, gs simapp.GenesisState
 	if err := g.Params.Validate(); err != nil {
 		engine.Fatal("farm: generated invalid params: %v", err)
 	}
+	if gp := m.cfg.Gov; gp != nil {
+		// The state HandleCreateFarmProposal produces when a community-pool farm proposal
+		// passes: creator = distribution module account, not editable, budget in the farm
+		// module account. (The message route itself cannot run in this application: its app
+		// config has no escrow_collector module account and no farm route in gov's legacy
+		// router, so MsgCreatePoolWithCommunityPool aborts in the bank keeper.) The chain
+		// starts from a genesis that already contains such a pool, as after an export/import.
+		pool := ftypes.FarmPool{Id: govPoolID, Creator: distrAddr, Description: "created by governance",
+			StartHeight: gp.Start, EndHeight: gp.end(), Editable: false,
+			TotalLptLocked: sdk.NewCoin(gp.Lpt, sdkmath.ZeroInt())}
+		var budget sdk.Coins
+		for _, rw := range gp.Rewards {
+			pool.Rules = append(pool.Rules, ftypes.RewardRule{Reward: rw.Denom, TotalReward: engine.Int(bigOf(rw.Total)),
+				RemainingReward: engine.Int(bigOf(rw.Total)), RewardPerBlock: engine.Int(bigOf(rw.Rate)), RewardPerShare: sdkmath.LegacyZeroDec()})
+			budget = budget.Add(coin(rw.Denom, rw.Total))
+		}
+		g.Pools = append(g.Pools, pool)
+		if g.Sequence < 1 {
+			g.Sequence = 1
+		}
+		var bg banktypes.GenesisState
+		cdc.MustUnmarshalJSON(gs[banktypes.ModuleName], &bg)
+		bg.Balances = append(bg.Balances, banktypes.Balance{Address: farmAddr, Coins: budget})
+		bg.Supply = bg.Supply.Add(budget...)
+		gs[banktypes.ModuleName] = cdc.MustMarshalJSON(&bg)
+	}
 	gs[ftypes.ModuleName] = cdc.MustMarshalJSON(&g)
+}
+
+const govPoolID = "farm-1"
+
+// end = start + min_i floor(budget_i/rate_i), what createPool computes.
+func (g *govPool) end() int64 {
+	var life *big.Int
+	for _, rw := range g.Rewards {
+		q := new(big.Int).Quo(bigOf(rw.Total), bigOf(rw.Rate))
+		if life == nil || q.Cmp(life) < 0 {
+			life = q
+		}
+	}
+	return g.Start + life.Int64()
+}
+
+// Started installs the model of the governance-created pool that the genesis carries.
+func (m *Module) Started(w *engine.World) {
+	gp := m.cfg.Gov
+	if gp == nil {
+		return
+	}
+	p := &poolM{Idx: len(m.order), ID: govPoolID, Creator: distrAddr, CreatorIdx: -1, Lpt: gp.Lpt, Editable: false,
+		Start: gp.Start, End: gp.end(), Rate: map[string]*big.Int{}, Funded: map[string]*big.Int{},
+		Released: map[string]*big.Int{}, Refunded: map[string]*big.Int{}, PaidOut: map[string]*big.Int{},
+		Total: new(big.Int), Far: map[string]*farmerM{}, gov: true}
+	p.Last = p.Start
+	for _, rw := range gp.Rewards {
+		p.Denoms = append(p.Denoms, rw.Denom)
+		p.Rate[rw.Denom] = bigOf(rw.Rate)
+		p.Funded[rw.Denom] = bigOf(rw.Total)
+		p.Released[rw.Denom] = new(big.Int)
+		p.Refunded[rw.Denom] = new(big.Int)
+		p.PaidOut[rw.Denom] = new(big.Int)
+	}
+	sort.Strings(p.Denoms)
+	m.order = append(m.order, p)
+	m.byID[p.ID] = p
+	w.Label(fmt.Sprintf("farm.pool.%d", p.Idx), p.ID)
+	w.Hit("farm.gov_pool_in_genesis")
 }
 
 // ---- operations ----------------------------------------------------------------------
@@ -213,6 +331,9 @@ type createArgs struct {
 	StartRel int64        `json:"start_rel"` // start height = inclusion height + StartRel
 	Rewards  []rewardSpec `json:"rewards"`
 	Editable bool         `json:"editable"`
+	// Exact: generator's note that the budget is an exact multiple of the rate (the pool is
+	// then left alone after its first stake); no effect on the message
+	Exact bool `json:"exact,omitempty"`
 }
 type stakeArgs struct {
 	Pool int    `json:"pool"` // ordinal of the pool in observed creation order; -1 = a pool id that never existed
@@ -338,6 +459,14 @@ func (m *Module) Gen(w *engine.World, r *engine.Rand) *engine.TxPlan {
 	if r.Bool(c.PParam) {
 		return m.genParams(w, r)
 	}
+	// planned operations first; one whose height has passed is dropped
+	for len(m.queue) > 0 {
+		tp := m.queue[0]
+		m.queue = m.queue[1:]
+		if tp.At > w.Height {
+			return tp
+		}
+	}
 	lpts := m.lpts(w)
 	if len(lpts) == 0 {
 		return nil
@@ -347,6 +476,20 @@ func (m *Module) Gen(w *engine.World, r *engine.Rand) *engine.TxPlan {
 		if !p.Ended {
 			live++
 		}
+	}
+	if c.ManyPools > 0 && len(m.order) < c.ManyPools && m.createsIssued < c.ManyPools+4 && r.Bool(0.6) {
+		// ten or more pools early in the run
+		return m.genCreateCheap(w, r, lpts)
+	}
+	// a pool with an exact budget: its script runs once it is known
+	for _, p := range m.order {
+		if p.exact && !p.planned {
+			p.planned = true
+			m.planExact(w, r, p)
+		}
+	}
+	if len(m.queue) == 0 && live > 0 && r.Bool(c.PCluster) {
+		m.planCluster(w, r)
 	}
 	// 1..NPools pools alive at a time; the total over the run grows with its length
 	if live < c.NPools && len(m.order) < c.NPools+3+w.Cfg.Blocks/20 && w.Height >= m.nextCreate && (live == 0 || r.Bool(0.3)) {
@@ -376,6 +519,12 @@ func (m *Module) Gen(w *engine.World, r *engine.Rand) *engine.TxPlan {
 			}
 		}
 		p = lv[r.Intn(len(lv))]
+	}
+	if c.ManyPools > 0 && !m.order[0].Ended && r.Bool(0.5) {
+		p = m.order[0] // keep operating on the first pool (its id is a prefix of the tenth's)
+	}
+	if p.exact && !p.Ended {
+		return nil // left alone until it has expired
 	}
 	nf := m.nFarmers(w)
 	// farmers short of the pool's LP token get some from a holder (a plain bank send; the
@@ -462,16 +611,164 @@ func (m *Module) genCreate(w *engine.World, r *engine.Rand, lpts []string) *engi
 		n = len(c.Denoms)
 	}
 	perm := r.Perm(len(c.Denoms))
+	exact := r.Bool(c.PExact) && a.Lpt != "lpt-99" && n <= int(m.par.MaxCat)
+	if exact {
+		// budget = rate * k for every denom, start in the future, not editable
+		a.Exact, a.Editable, a.StartRel = true, false, 2+int64(r.Intn(4))
+	}
+	k := int64(3 + r.Intn(9))
+	main := c.ManyPools > 0 && m.createsIssued == 0
 	for i := 0; i < n; i++ {
 		rate := m.mag(r)
 		life := int64(2 + r.Intn(c.MaxLife))
+		if main {
+			life = 40 + int64(r.Intn(30)) // the pool the run keeps operating on
+		}
+		if exact {
+			life = k
+		}
 		total := new(big.Int).Mul(rate, big.NewInt(life))
-		if r.Bool(0.6) {
+		if !exact && r.Bool(0.6) {
 			total.Add(total, r.BigBelow(rate)) // a remainder that never gets released
 		}
 		a.Rewards = append(a.Rewards, rewardSpec{Denom: c.Denoms[perm[i]], Total: total.String(), Rate: rate.String()})
 	}
+	m.createsIssued++
 	return engine.Tx1(engine.NewOp(Name, "create", r.Intn(nAct), a))
+}
+
+// genCreateCheap: one of the many small pools of a many-pools run (the first one is an
+// ordinary long-lived pool).
+func (m *Module) genCreateCheap(w *engine.World, r *engine.Rand, lpts []string) *engine.TxPlan {
+	if m.createsIssued == 0 {
+		return m.genCreate(w, r, lpts)
+	}
+	c := &m.cfg
+	a := createArgs{Lpt: lpts[r.Intn(len(lpts))], Editable: r.Bool(0.5), StartRel: int64(r.Intn(3))}
+	if len(m.order) > 0 && r.Bool(0.6) {
+		a.Lpt = m.order[0].Lpt
+	}
+	n := 1
+	if m.par.MaxCat > 1 && len(c.Denoms) > 1 && r.Bool(0.3) {
+		n = 2
+	}
+	perm := r.Perm(len(c.Denoms))
+	for i := 0; i < n; i++ {
+		rate := big.NewInt(1 + r.Int63n(7))
+		life := int64(2 + r.Intn(40))
+		total := new(big.Int).Mul(rate, big.NewInt(life))
+		total.Add(total, big.NewInt(r.Int63n(rate.Int64())))
+		a.Rewards = append(a.Rewards, rewardSpec{Denom: c.Denoms[perm[i]], Total: total.String(), Rate: rate.String()})
+	}
+	m.createsIssued++
+	return engine.Tx1(engine.NewOp(Name, "create", r.Intn(len(w.Actors)-1), a))
+}
+
+func (m *Module) at(tp *engine.TxPlan, h int64) { tp.At = h; m.queue = append(m.queue, tp) }
+
+// planExact: the first stake lands exactly on the start height, the pool is never empty and
+// nothing touches it in its end block: it pays out its whole budget and expires on its own.
+func (m *Module) planExact(w *engine.World, r *engine.Rand, p *poolM) {
+	if p.Start <= w.Height {
+		return
+	}
+	var have []int
+	for i := 0; i < len(w.Actors)-1; i++ {
+		if w.Bal(w.A(i).Addr.String(), p.Lpt).Sign() > 0 {
+			have = append(have, i)
+		}
+	}
+	if len(have) == 0 {
+		return
+	}
+	small := func(f int) string {
+		v := big.NewInt(smalls[r.Intn(len(smalls))])
+		if bal := w.Bal(w.A(f).Addr.String(), p.Lpt); v.Cmp(bal) > 0 {
+			v = bal
+		}
+		return v.String()
+	}
+	a := have[r.Intn(len(have))]
+	m.at(engine.Tx1(engine.NewOp(Name, "stake", a, stakeArgs{Pool: p.Idx, Amt: small(a)})), p.Start)
+	if r.Bool(0.3) { // a second farmer joins at the start as well
+		b := have[r.Intn(len(have))]
+		m.at(engine.Tx1(engine.NewOp(Name, "stake", b, stakeArgs{Pool: p.Idx, Amt: small(b)})), p.Start)
+	}
+	// the last operation comes before the end height
+	if span := p.End - p.Start; span > 2 && r.Bool(0.6) {
+		h := p.Start + 1 + int64(r.Intn(int(span-1)))
+		if r.Bool(0.5) {
+			m.at(engine.Tx1(engine.NewOp(Name, "harvest", a, harvestArgs{Pool: p.Idx})), h)
+		} else {
+			b := have[r.Intn(len(have))]
+			m.at(engine.Tx1(engine.NewOp(Name, "stake", b, stakeArgs{Pool: p.Idx, Amt: small(b)})), h)
+		}
+	}
+}
+
+// planCluster: two or three operations on one pool in one block, the later ones a harvest or
+// an unstake by farmers who have been in the pool for a while, then operations of the same
+// farmers in later blocks.
+func (m *Module) planCluster(w *engine.World, r *engine.Rand) {
+	var cand []*poolM
+	for _, p := range m.order {
+		if !p.Ended && !p.exact && p.Start <= w.Height && p.End > w.Height+5 && len(m.stakers(w, p)) > 0 {
+			cand = append(cand, p)
+		}
+	}
+	if len(cand) == 0 {
+		return
+	}
+	p := cand[r.Intn(len(cand))]
+	st := m.stakers(w, p)
+	h := w.Height + 3
+	pick := func() int { return st[r.Intn(len(st))] }
+	harvest := func(f int) *engine.TxPlan {
+		return engine.Tx1(engine.NewOp(Name, "harvest", f, harvestArgs{Pool: p.Idx}))
+	}
+	unstake := func(f int, all bool) *engine.TxPlan {
+		amt := "1"
+		if all {
+			amt = "all"
+		}
+		return engine.Tx1(engine.NewOp(Name, "unstake", f, unstakeArgs{Pool: p.Idx, Amt: amt}))
+	}
+	// first operation of the block: anything
+	x := pick()
+	switch r.Intn(3) {
+	case 0:
+		m.at(harvest(x), h)
+	case 1:
+		m.at(unstake(x, false), h)
+	default:
+		f := x
+		for i := 0; i < len(w.Actors)-1; i++ {
+			if w.Bal(w.A(i).Addr.String(), p.Lpt).Sign() > 0 && r.Bool(0.5) {
+				f = i
+				break
+			}
+		}
+		m.at(engine.Tx1(engine.NewOp(Name, "stake", f, stakeArgs{Pool: p.Idx, Amt: big.NewInt(smalls[r.Intn(len(smalls))]).String()})), h)
+	}
+	b := pick()
+	m.at(harvest(b), h)
+	c := pick()
+	if r.Bool(0.6) {
+		if r.Bool(0.5) {
+			m.at(harvest(c), h)
+		} else {
+			m.at(unstake(c, false), h)
+		}
+	}
+	// later blocks: the same farmers again
+	m.at(harvest(b), h+1+int64(r.Intn(3)))
+	if r.Bool(0.7) {
+		m.at(unstake(b, r.Bool(0.5)), h+2+int64(r.Intn(4)))
+	}
+	if r.Bool(0.5) {
+		m.at(unstake(c, r.Bool(0.3)), h+1+int64(r.Intn(4)))
+	}
+	sort.SliceStable(m.queue, func(i, j int) bool { return m.queue[i].At < m.queue[j].At })
 }
 
 func (m *Module) withAt(w *engine.World, r *engine.Rand, p *poolM, tp *engine.TxPlan) *engine.TxPlan {
